@@ -364,6 +364,35 @@ def WFCommit (c : Commit) : Prop :=
   (∀ raw ∈ c.mergetag, raw.getLast? = some 10 ∧ ∃ tg, deserializeTag Tag.empty raw = .ok tg) ∧
   (∀ kv ∈ c.extra, WFKey kv.1 ∧ kv.1 ∉ reservedKeys) ∧ WFOpt c.gpgsig ∧ (∃ m, c.message = some m)
 
+/-- A mergetag text with its last line completed: what the parser stores (`Tag.from_string(value + b"\n")`)
+after the serialiser removed a final LF if there was one. -/
+def completeLF (raw : Bytes) : Bytes := stripLastLF raw ++ [10]
+
+theorem completeLF_of_last (raw : Bytes) (h : raw.getLast? = some 10) : completeLF raw = raw := by
+  obtain ⟨q, hq⟩ := getLast?_eq_some_concat raw 10 h
+  subst hq
+  simp [completeLF, stripLastLF]
+
+theorem completeLF_of_not_last (raw : Bytes) (h : raw.getLast? ≠ some 10) : completeLF raw = raw ++ [10] := by
+  simp [completeLF, stripLastLF, h]
+
+theorem mergetagValue_eq (raw : Bytes) : mergetagValue raw = stripLastLF raw := by
+  have : OGen.mergetagStripConditional = true := rfl
+  simp [mergetagValue, this]
+
+/-- `WFCommit` without the requirement that mergetag texts end in LF: it suffices that the completed
+text parses as a tag. -/
+def WFCommitG (c : Commit) : Prop :=
+  (∃ t, c.tree = some t) ∧ WFTime c.author ∧ WFTime c.committer ∧ WFOpt c.encoding ∧
+  (∀ raw ∈ c.mergetag, ∃ tg, deserializeTag Tag.empty (completeLF raw) = .ok tg) ∧
+  (∀ kv ∈ c.extra, WFKey kv.1 ∧ kv.1 ∉ reservedKeys) ∧ WFOpt c.gpgsig ∧ (∃ m, c.message = some m)
+
+theorem WFCommitG_of_WFCommit (c : Commit) (h : WFCommit c) : WFCommitG c := by
+  obtain ⟨h1, h2, h3, h4, h5, h6, h7, h8⟩ := h
+  refine ⟨h1, h2, h3, h4, fun raw hr => ?_, h6, h7, h8⟩
+  obtain ⟨hl, tg, htg⟩ := h5 raw hr
+  exact ⟨tg, by rw [completeLF_of_last raw hl]; exact htg⟩
+
 theorem fold_parents : ∀ (ps : List Bytes) (c : Commit),
     foldFields commitField c (ps.map fun p => (OGen.hdrParent, p)) = .ok { c with parents := c.parents ++ ps } := by
   have n1 : ¬ OGen.hdrParent = OGen.hdrTree := by decide
@@ -377,9 +406,9 @@ theorem fold_parents : ∀ (ps : List Bytes) (c : Commit),
     simp
 
 theorem fold_mergetag : ∀ (raws : List Bytes) (c : Commit),
-    (∀ raw ∈ raws, raw.getLast? = some 10 ∧ ∃ tg, deserializeTag Tag.empty raw = .ok tg) →
-    foldFields commitField c (raws.map fun raw => (OGen.hdrMergetag, raw.dropLast))
-      = .ok { c with mergetag := c.mergetag ++ raws } := by
+    (∀ raw ∈ raws, ∃ tg, deserializeTag Tag.empty (completeLF raw) = .ok tg) →
+    foldFields commitField c (raws.map fun raw => (OGen.hdrMergetag, mergetagValue raw))
+      = .ok { c with mergetag := c.mergetag ++ raws.map completeLF } := by
   have n1 : ¬ OGen.hdrMergetag = OGen.hdrTree := by decide
   have n2 : ¬ OGen.hdrMergetag = OGen.hdrParent := by decide
   have n3 : ¬ OGen.hdrMergetag = OGen.hdrAuthor := by decide
@@ -390,9 +419,8 @@ theorem fold_mergetag : ∀ (raws : List Bytes) (c : Commit),
   | nil => intro c _; simp [foldFields]
   | cons raw raws ih =>
     intro c h
-    obtain ⟨hlast, tg, htg⟩ := h raw List.mem_cons_self
-    obtain ⟨q, hq⟩ := getLast?_eq_some_concat raw 10 hlast
-    have hd : raw.dropLast ++ [10] = raw := by rw [hq]; simp
+    obtain ⟨tg, htg⟩ := h raw List.mem_cons_self
+    have hd : mergetagValue raw ++ [10] = completeLF raw := by rw [mergetagValue_eq]; rfl
     simp only [List.map_cons, foldFields, commitField, n1, n2, n3, n4, n5, if_false, if_true, hd, htg]
     rw [ih _ (fun r hr => h r (List.mem_cons_of_mem _ hr))]
     simp
@@ -459,9 +487,11 @@ theorem WFHeaders_map (k : Bytes) (hk : WFKey k) {α : Type} (l : List α) (f : 
   obtain ⟨x, _, rfl⟩ := List.mem_map.mp h
   exact hk
 
-/-- **Commit round trip**: `Commit._deserialize (Commit._serialize c) = c`. -/
-theorem commit_roundtrip_lemma (c : Commit) (h : WFCommit c) :
-    ∃ bs, serializeCommit c = .ok bs ∧ deserializeCommit bs = .ok c := by
+/-- **Commit round trip, general form**: `Commit._deserialize (Commit._serialize c)` is `c` with every
+mergetag text completed by a final LF if it lacked one (nothing else changes, no byte is lost). -/
+theorem commit_roundtrip_general_lemma (c : Commit) (h : WFCommitG c) :
+    ∃ bs, serializeCommit c = .ok bs ∧
+      deserializeCommit bs = .ok { c with mergetag := c.mergetag.map completeLF } := by
   obtain ⟨tree, parents, author, committer, encoding, mergetag, extra, gpgsig, message⟩ := c
   obtain ⟨⟨t, ht⟩, ⟨pa, ta, za, na, hau, hpa, hza⟩, ⟨pc, tc, zc, nc, hco, hpc, hzc⟩, henc, hmt, hex, hsig, ⟨m, hm⟩⟩ := h
   simp only at ht hau hco henc hmt hex hsig hm
@@ -477,12 +507,12 @@ theorem commit_roundtrip_lemma (c : Commit) (h : WFCommit c) :
   have n5 : ¬ OGen.hdrCommitter = OGen.hdrAuthor := by decide
   refine ⟨formatMessage ((OGen.hdrTree, t) :: ((parents.map fun p => (OGen.hdrParent, p)) ++
       ((OGen.hdrAuthor, va) :: (OGen.hdrCommitter, vc) :: (optHeader OGen.hdrEncoding encoding ++
-        ((mergetag.map fun raw => (OGen.hdrMergetag, raw.dropLast)) ++ (extra ++ optHeader OGen.hdrGpgsig gpgsig))))))
+        ((mergetag.map fun raw => (OGen.hdrMergetag, mergetagValue raw)) ++ (extra ++ optHeader OGen.hdrGpgsig gpgsig))))))
       (some m), ?_, ?_⟩
   · simp [serializeCommit, slots, collect, commitSlot, timeHeader, hva1, hvc1]
   · have wf : WFHeaders ((OGen.hdrTree, t) :: ((parents.map fun p => (OGen.hdrParent, p)) ++
         ((OGen.hdrAuthor, va) :: (OGen.hdrCommitter, vc) :: (optHeader OGen.hdrEncoding encoding ++
-          ((mergetag.map fun raw => (OGen.hdrMergetag, raw.dropLast)) ++ (extra ++ optHeader OGen.hdrGpgsig gpgsig)))))) := by
+          ((mergetag.map fun raw => (OGen.hdrMergetag, mergetagValue raw)) ++ (extra ++ optHeader OGen.hdrGpgsig gpgsig)))))) := by
       have e : ∀ (x : Bytes × Bytes) (l : Headers), x :: l = [x] ++ l := fun _ _ => rfl
       rw [e (OGen.hdrTree, t), e (OGen.hdrAuthor, va), e (OGen.hdrCommitter, vc)]
       simp only [WFHeaders_append]
@@ -503,5 +533,15 @@ theorem commit_roundtrip_lemma (c : Commit) (h : WFCommit c) :
     simp only
     rw [fold_gpgsig _ hsig]
     cases encoding <;> cases gpgsig <;> simp [Commit.empty]
+
+/-- **Commit round trip**: `Commit._deserialize (Commit._serialize c) = c`. -/
+theorem commit_roundtrip_lemma (c : Commit) (h : WFCommit c) :
+    ∃ bs, serializeCommit c = .ok bs ∧ deserializeCommit bs = .ok c := by
+  obtain ⟨bs, h1, h2⟩ := commit_roundtrip_general_lemma c (WFCommitG_of_WFCommit c h)
+  refine ⟨bs, h1, ?_⟩
+  have hid : c.mergetag.map completeLF = c.mergetag := by
+    have : ∀ raw ∈ c.mergetag, completeLF raw = id raw := fun raw hr => completeLF_of_last raw (h.2.2.2.2.1 raw hr).1
+    rw [List.map_congr_left this, List.map_id]
+  rw [h2, hid]
 
 end Dulwich.Objects
